@@ -5,7 +5,6 @@ use serde_json::{json, Value};
 
 use crate::describe::*;
 use crate::gen;
-use crate::outcome::*;
 use crate::Ctx;
 
 pub fn eta_table(ab: &AB, h: u64) -> Vec<u64> {
